@@ -22,16 +22,17 @@ import (
 // Not decided: that the T consulted is the one user code can reach (a predicate that captured an outer T while the
 // generator runs under the inner T of a Custom function).
 var discardExempt = map[string]string{
-	"(*T).Repeat":  "the step's user code runs in runAction, whose invalidData filter consults the flag before the skip is reported (C08-R6)",
+	"(*T).Repeat": "the step's user code runs in runAction, whose invalidData filter consults the flag before the skip is reported (C08-R6)",
 	"genAnyMap$1": "keys and values come from newMakeGen: reflection-built generators without user functions",
 }
 
 type discardSite struct {
-	in       ssa.CallInstruction
-	discard  ssa.Value // nil: unconditional (reject)
-	hasUser  bool      // the function calls user code at all
-	bad      string    // non-empty: a path from user code reaches the discard without a consultation
-	complete bool
+	viaHelper bool // the discard happens inside a straight-line helper called here
+	in        ssa.CallInstruction
+	discard   ssa.Value // nil: unconditional (reject)
+	hasUser   bool      // the function calls user code at all
+	bad       string    // non-empty: a path from user code reaches the discard without a consultation
+	complete  bool
 }
 
 func (p *Program) consultsFlag(ci ssa.CallInstruction) bool {
@@ -86,6 +87,10 @@ func (p *Program) discardSites(fn *ssa.Function) []discardSite {
 			switch {
 			case key == "(*repeat).reject":
 				sites = append(sites, discardSite{in: ci})
+			case p.rejectingHelper(ci) != nil:
+				// a straight-line helper of the package that rejects (rejectElem): the call is the discard site; whether the
+				// helper consults the flag before it rejects is read off its instruction order
+				sites = append(sites, discardSite{in: ci, viaHelper: true})
 			case strings.HasSuffix(key, ".endGroup") && len(c.Args) >= 1:
 				d := c.Args[len(c.Args)-1]
 				if bv, isB := constBool(p.resolve(d)); isB && !bv {
@@ -125,6 +130,9 @@ func (p *Program) discardSites(fn *ssa.Function) []discardSite {
 						continue
 					}
 					if in == ssa.Instruction(s.in) {
+						if s.viaHelper && p.helperConsultsBeforeReject(ci) {
+							return
+						}
 						if pending == token.NoPos {
 							return
 						}
@@ -266,4 +274,49 @@ func ruleNoOnceAroundUserCode(r *Run) {
 		}
 	}
 	r.Floor("sync.Once.Do calls", n, 1)
+}
+
+// rejectingHelper: ci calls a single-block function of the package that calls (*repeat).reject; returns it.
+func (p *Program) rejectingHelper(ci ssa.CallInstruction) *ssa.Function {
+	sc := ci.Common().StaticCallee()
+	if sc == nil || !p.inRapid(sc) {
+		return nil
+	}
+	if o := sc.Origin(); o != nil {
+		sc = o
+	}
+	if len(sc.Blocks) != 1 || p.fnName(sc) == "(*repeat).reject" {
+		return nil
+	}
+	for _, in := range sc.Blocks[0].Instrs {
+		if c, ok := in.(*ssa.Call); ok && p.calleeKey(c.Common()) == "(*repeat).reject" {
+			return sc
+		}
+	}
+	return nil
+}
+
+// helperConsultsBeforeReject: in the straight-line helper called by ci, failOnError comes before reject and no user
+// code runs between them.
+func (p *Program) helperConsultsBeforeReject(ci ssa.CallInstruction) bool {
+	h := p.rejectingHelper(ci)
+	if h == nil {
+		return false
+	}
+	consulted := false
+	for _, in := range h.Blocks[0].Instrs {
+		c, ok := in.(*ssa.Call)
+		if !ok {
+			continue
+		}
+		switch {
+		case p.calleeKey(c.Common()) == "(*T).failOnError":
+			consulted = true
+		case p.calleeKey(c.Common()) == "(*repeat).reject":
+			return consulted
+		case p.callsUserCode(c):
+			consulted = false
+		}
+	}
+	return false
 }
